@@ -828,6 +828,8 @@ func c30pStream(rng *rand.Rand, n int, tier string, out string) (*Summary, error
 		{"nil", "LrNil", nil},
 		{"non-nil", "LrNonNil", []ygot.ValidationOption{&ytypes.LeafrefOptions{}}},
 		{"ignore", "LrIgnore", []ygot.ValidationOption{&ytypes.LeafrefOptions{IgnoreMissingData: true}}},
+		// Log asks for logging of what is ignored: it must not turn anything into an error
+		{"ignore-log", "LrIgnore", []ygot.ValidationOption{&ytypes.LeafrefOptions{IgnoreMissingData: true, Log: true}}},
 	}
 	var files []string
 	id := 0
@@ -992,7 +994,7 @@ func c30pStream(rng *rand.Rand, n int, tier string, out string) (*Summary, error
 // that name their leaf are matched per schema path; the anonymous ones (malformed element,
 // operand node set) against the leaves that can cause them.
 func c30pOracle(sum *Summary, in c30pReplay, mode string, lrfix bool, infos []c30pLeafInfo, obs []c30pObs) {
-	if mode == "ignore" {
+	if strings.HasPrefix(mode, "ignore") {
 		if len(obs) > 0 {
 			sum.finding(Finding{Signature: "leafref/error-despite-ignore-missing-data", What: "leafref error with IgnoreMissingData: " + obs[0].text, Input: in})
 		}
